@@ -29,15 +29,19 @@ static int32_t add_track_dt(KeyframeAnimation *anim, int dt, int nc, const std::
     default: return -2;
   }
 }
-// anim order=<0 timestamps first | 1 tracks first> [speed=e,d] [q<track id>=bits] [del=<track ids>] [trail=<hex>] -- <pc text>
+// anim order=<0 timestamps first | 1 tracks first> [speed=e,d] [q<track id>=bits] [del=<track ids>] [builtin=0|1]
+//      [g:<global int option>=<v>] [trail=<hex>] -- <pc text>
 //   attribute 0 of the pc = timestamps (float32 x1), further attributes = tracks in order
+//   builtin = EncoderOptions global bool use_built_in_attribute_compression; g:symbol_encoding_method etc. as the
+//   KeyframeAnimationEncoder takes them through EncoderOptions
 // -> ok <hex> 0 0 | <decode> | <decode with transforms skipped> | <dump of the animation as built> | <ids returned by AddKeyframes>
-VH_OP(anim) {
-  size_t sep = 1;
-  while (sep < a.size() && a[sep] != "--") ++sep;
-  if (sep >= a.size()) return "bad-op";
+static std::string run_anim(const vh::Args &a, size_t from, size_t to, KeyframeAnimationEncoder &enc,
+                            KeyframeAnimationDecoder &dec) {
+  size_t sep = from;
+  while (sep < to && a[sep] != "--") ++sep;
+  if (sep >= to) return "bad-op";
   std::map<std::string, std::string> o;
-  for (size_t i = 1; i < sep; ++i) {
+  for (size_t i = from; i < sep; ++i) {
     size_t e = a[i].find('=');
     if (e != std::string::npos) o[a[i].substr(0, e)] = a[i].substr(e + 1);
   }
@@ -80,11 +84,13 @@ VH_OP(anim) {
     auto l = vh::ilist(o["speed"]);
     eo.SetSpeed(static_cast<int>(l[0]), static_cast<int>(l[1]));
   }
-  for (auto &kv : o)
+  if (o.count("builtin")) eo.SetGlobalBool("use_built_in_attribute_compression", o["builtin"] == "1");
+  for (auto &kv : o) {
     if (kv.first[0] == 'q' && isdigit(kv.first[1]))
       eo.SetAttributeInt(atoi(kv.first.c_str() + 1), "quantization_bits", atoi(kv.second.c_str()));
+    if (kv.first.rfind("g:", 0) == 0) eo.SetGlobalInt(kv.first.substr(2), atoi(kv.second.c_str()));
+  }
   EncoderBuffer buf;
-  KeyframeAnimationEncoder enc;
   if (!enc.EncodeKeyframeAnimation(anim, eo, &buf).ok()) return "err-encode";
   std::vector<uint8_t> d(buf.data(), buf.data() + buf.size());
   if (o.count("trail")) {
@@ -97,7 +103,6 @@ VH_OP(anim) {
     DecoderOptions dopt;
     if (skip)
       for (int t = 0; t < 5; ++t) dopt.SetAttributeBool(static_cast<GeometryAttribute::Type>(t), "skip_attribute_transform", true);
-    KeyframeAnimationDecoder dec;
     KeyframeAnimation out;
     if (!dec.Decode(dopt, &b, &out).ok()) return "err";
     std::string s = "ok " + std::to_string(static_cast<int64_t>(d.size()) - b.remaining_size()) + " " + vh::dump_geometry(&out, nullptr);
@@ -112,6 +117,28 @@ VH_OP(anim) {
   };
   return "ok " + vh::hex(buf.data(), buf.size()) + " 0 0 | " + decode(false) + " | " + decode(true) + " | - | " +
          vh::dump_geometry(&anim, nullptr) + " | " + vh::joinl(ids);
+}
+VH_OP(anim) {
+  KeyframeAnimationEncoder enc;
+  KeyframeAnimationDecoder dec;
+  return run_anim(a, 1, a.size(), enc, dec);
+}
+// animh <anim args A> ;; <anim args B> [;; <anim args C> …]: object-reuse history — ONE KeyframeAnimationEncoder and ONE
+//   KeyframeAnimationDecoder are used for all animations in order (each animation: encode, ordinary decode, decode with
+//   transforms skipped); the result of the LAST animation is reported in the `anim` format. An earlier animation the
+//   encoder rejects is skipped (the objects are still reused).
+VH_OP(animh) {
+  KeyframeAnimationEncoder enc;
+  KeyframeAnimationDecoder dec;
+  std::string last = "bad-op";
+  size_t from = 1;
+  for (size_t i = 1; i <= a.size(); ++i) {
+    if (i == a.size() || a[i] == ";;") {
+      if (i > from) last = run_anim(a, from, i, enc, dec);
+      from = i + 1;
+    }
+  }
+  return last;
 }
 
 // animapi <call> <call> …: the KeyframeAnimation API as a state machine (correspondence with lean/DracoModel/Animation.lean)
